@@ -256,6 +256,13 @@ func (r *Report) Finish() string {
 		if r.exhaustive != nil {
 			cov["exhaustive"] = *r.exhaustive
 		}
+		if len(r.floors) > 0 {
+			fl := map[string][2]int64{}
+			for name, min := range r.floors {
+				fl[name] = [2]int64{min, r.counters[name]}
+			}
+			cov["floors_min_and_observed"] = fl
+		}
 		cov["known_findings_seen"] = nKnown
 		cov["verdict"] = status
 		if len(r.inconclusive) > 0 {
